@@ -16,6 +16,16 @@ inductive Linked (areas : List Area) : Area → Area → Prop where
   | refl (a : Area) : a ∈ areas → Linked areas a a
   | step {a b c : Area} : Linked areas a b → c ∈ areas → b.2.SharesBase c.2 → Linked areas a c
 
+/-- `groups` are the connected components of `areas` under "share a base":
+    every area lies in exactly one group (the groups, concatenated, are a rearrangement of the
+    areas), the members of a group are linked to each other, and no member of one group shares
+    a base with a member of another -/
+structure IsComponents (areas : List Area) (groups : List (List Area)) : Prop where
+  perm : groups.flatten.Perm areas
+  nonempty : ∀ g ∈ groups, g ≠ []
+  linked : ∀ g ∈ groups, ∀ a ∈ g, ∀ b ∈ g, Linked areas a b
+  separated : groups.Pairwise (fun g g' => ∀ a ∈ g, ∀ b ∈ g', ¬ a.2.SharesBase b.2)
+
 /-- add one area: every class it touches is merged with it -/
 def mergeInto (classes : List (List Area)) (a : Area) : List (List Area) :=
   let touch := classes.filter fun c => c.any fun b => sharesPts a.2 b.2
